@@ -191,6 +191,10 @@ CStep(S0, r) ==
                 [S EXCEPT !.wantEv = @ \ {<<r.cl, r.m.svc, r.m.ev>>},
                           !.mustSend = Del(@, {k \in DOMAIN @ : @[k] = <<r.cl, r.m.svc, r.m.ev>> /\ <<r.cl, r.m.svc>> \notin S.wantAll})]
          ELSE S
+    \* the driver's watchdog: one poll of code under test did not return (the executor cannot
+    \* interrupt it), so whatever was stopping never finishes
+    [] r.t = "hang" -> Bad(S, IF S.cause # "" THEN "C15" ELSE "C06",
+                           "a task never returned from one poll (busy loop): its run future cannot return and every other task starves")
     [] r.t = "fault" -> [S EXCEPT !.faulty = @ \cup {r.cl}]
     [] r.t = "cause" -> [S EXCEPT !.cause = r.cause]
     [] r.t = "quiescent" ->
